@@ -1,4 +1,6 @@
 import Netpoll.FdGlobal
+import Netpoll.ManagerRes
+import Netpoll.ManagerExamples
 /-!
 # C15 – every descriptor netpoll owns is closed exactly once, and no other
 
@@ -72,6 +74,40 @@ theorem C15_none_left (envOpen : Fd → Bool) (ms : List Move) (g : G) (hk : Fro
   have hn := none fd
   unfold cellOf
   split <;> simp_all
+
+/-- **The pool asks every poller it lets go of to exit.**  `C15_none_left` speaks of poller lifecycles that have
+completed, i.e. whose loop has seen its close request; who sends that request is the poller pool (`poll_manager.go`,
+model `Netpoll.Manager` of C18: `Run` with its shrink loop, grow loop and error path, `Close`).  In every reachable
+state of the pool in which nobody is inside `Run` – after any sequence of `SetNumLoops` (larger or SMALLER), `Pick`s,
+failed `openPoll`s – every poller ever opened is either still in the pool's slice or has been sent `Close`, none
+twice and none that is still in the slice; and after `manager.Close()` every poller ever opened has been sent `Close`
+exactly once and the slice is empty.  Together with `C15_none_left` (each such poller then closes its epoll
+descriptor and its eventfd): after the event loops are closed the pool has left no descriptor behind. -/
+theorem C15_pool_closes_every_poller {n : Nat} {s : Netpoll.Manager.S} (hr : Netpoll.Manager.Reachable n s)
+    (hq : s.runners = []) :
+    (∀ id, id < s.opened → id ∈ s.polls ∨ id ∈ s.closed) ∧
+    (∀ id, id ∈ s.polls → id ∉ s.closed) ∧ s.closed.Nodup ∧
+    (∀ id, id < (Netpoll.Manager.closeAll s).opened → id ∈ (Netpoll.Manager.closeAll s).closed) ∧
+    (Netpoll.Manager.closeAll s).closed.Nodup ∧ (Netpoll.Manager.closeAll s).polls = [] := by
+  have h := Netpoll.Manager.res_reachable hr
+  obtain ⟨⟨hnd, hmem, hcov⟩, _⟩ := Netpoll.Manager.res_quiet h hq
+  obtain ⟨hlc, _, _, _⟩ := h.logs
+  refine ⟨hcov, fun id hid => (hmem id hid).2.2, hlc, ?_, ?_, rfl⟩
+  · intro id hid
+    show id ∈ s.closed ++ s.polls
+    rcases hcov id hid with hm | hm
+    · exact List.mem_append_right _ hm
+    · exact List.mem_append_left _ hm
+  · show (s.closed ++ s.polls).Nodup
+    rw [List.nodup_append]
+    exact ⟨hlc, hnd, fun a ha b hb hab => (hmem b hb).2.2 (hab ▸ ha)⟩
+
+/-- a pool that grew to three pollers, was shrunk to one (pollers 1 and 2 were sent `Close` by the shrink loop of
+`Run`) and is then closed: all three have been sent `Close`, each once -/
+example : ∃ s, Netpoll.Manager.Reachable 3 s ∧ s.runners = [] ∧ s.opened = 3 ∧ s.polls = [0] ∧ s.closed = [1, 2] ∧
+    (Netpoll.Manager.closeAll s).closed = [1, 2, 0] :=
+  ⟨Netpoll.Manager.traceEnd 3 Netpoll.Manager.exShrink, Netpoll.Manager.reachable_traceEnd 3 _ (by decide),
+    by decide, by decide, by decide, by decide, by decide⟩
 
 /-! ### non-vacuity: concrete runs of the model -/
 
